@@ -51,6 +51,8 @@ pub struct Fixture {
     pub actors: Vec<LiveActor>,
     pub ids: Vec<PublicKey>,
     pub counter: u64,
+    pub endpoints: Vec<iroh::Endpoint>,
+    pub since_rebuild: u64,
 }
 
 /// What a lifecycle run observed about the stores (judged by C10: "a declined request changes nothing in the store").
@@ -60,7 +62,7 @@ pub struct StoreNote {
     pub declined_or_failed_sessions_observed: u64,
 }
 
-async fn mk_actor(seed: u8) -> R<(LiveActor, PublicKey)> {
+async fn mk_actor(seed: u8) -> R<(LiveActor, PublicKey, iroh::Endpoint)> {
     use iroh::{endpoint::presets, Endpoint};
     let sk = iroh::SecretKey::from_bytes(&[seed; 32]);
     let ep = es(Endpoint::builder(presets::Minimal).secret_key(sk).bind().await)?;
@@ -72,8 +74,8 @@ async fn mk_actor(seed: u8) -> R<(LiveActor, PublicKey)> {
     let sync = SyncHandle::spawn(Store::memory(), None, format!("n{seed}"));
     let (tx, rx) = tokio::sync::mpsc::channel(64);
     let metrics = sync.metrics().clone();
-    let actor = es(LiveActor::new(sync, ep, gossip, blobs, downloader, rx, tx, metrics))?;
-    Ok((actor, id))
+    let actor = es(LiveActor::new(sync, ep.clone(), gossip, blobs, downloader, rx, tx, metrics))?;
+    Ok((actor, id, ep))
 }
 
 #[derive(Clone, Debug, PartialEq)]
@@ -150,14 +152,37 @@ impl Prop for C11 {
     }
 }
 
+/// Cases after which the two actors (endpoints, gossip, stores) are torn down and built again: their background tasks
+/// retain a little memory per wake-up, which over millions of schedules added up to gigabytes per worker.
+const REBUILD_AFTER: u64 = 40_000;
+
 fn fixture(ctx: &mut Ctx) -> R<()> {
-    if ctx.fixtures.contains_key("c11") {
-        return Ok(());
+    let mut counter = 0;
+    if let Some(fx) = ctx.fixtures.get_mut("c11") {
+        let f: &mut Fixture = fx.downcast_mut::<Fixture>().ok_or("fixture type")?;
+        f.since_rebuild += 1;
+        if f.since_rebuild < REBUILD_AFTER {
+            return Ok(());
+        }
+        counter = f.counter;
+        let mut old = ctx.fixtures.remove("c11").ok_or("fixture")?;
+        let f: &mut Fixture = old.downcast_mut::<Fixture>().ok_or("fixture type")?;
+        let eps = std::mem::take(&mut f.endpoints);
+        let actors = std::mem::take(&mut f.actors);
+        ctx.rt.block_on(async {
+            for a in &actors {
+                let _ = a.verif_sync_handle().shutdown().await;
+            }
+            drop(actors);
+            for ep in eps {
+                ep.close().await;
+            }
+        });
     }
     let f: R<Fixture> = ctx.rt.block_on(async {
-        let (a, ida) = mk_actor(1).await?;
-        let (b, idb) = mk_actor(2).await?;
-        Ok(Fixture { actors: vec![a, b], ids: vec![ida, idb], counter: 0 })
+        let (a, ida, epa) = mk_actor(1).await?;
+        let (b, idb, epb) = mk_actor(2).await?;
+        Ok(Fixture { actors: vec![a, b], ids: vec![ida, idb], counter, endpoints: vec![epa, epb], since_rebuild: 0 })
     });
     ctx.fixtures.insert("c11", Box::new(f?));
     Ok(())
@@ -213,7 +238,8 @@ pub fn run(ctx: &mut Ctx, c: &Case, o: &mut Outcome) -> R<StoreNote> {
             match c {
                 Case::Random { swap, picks, max_dials, drain, lifecycle } => {
                     let mut ch = Chooser::Picks { picks: picks.iter(), drain, drain_i: 0 };
-                    run_inner(f, *swap, *max_dials, &mut ch, *lifecycle, o).await
+                    let lifecycle = *lifecycle || std::env::var_os("DV_C11_LIFECYCLE_ALL").is_some();
+                    run_inner(f, *swap, *max_dials, &mut ch, lifecycle, o).await
                 }
                 Case::Exact { swap, max_dials, choices } => {
                     let mut ch = Chooser::Exact { choices, lens: vec![], step: 0 };
@@ -315,6 +341,9 @@ async fn run_inner(f: &mut Fixture, swap: bool, max_dials: u8, chooser: &mut Cho
     let not_syncing = NamespaceId::from(&other);
     let map = if swap { [1, 0] } else { [0, 1] };
     let mut note = StoreNote::default();
+    if std::env::var("DV_C11_SKIP").ok().as_deref() == Some("2") {
+        return Ok(note);
+    }
     if lifecycle {
         o.class("lifecycle(real start_sync / leave, documents exist in the stores)");
         // both documents exist in both stores; `ns` is synced on both nodes, `not_syncing` only on node 1
@@ -334,7 +363,7 @@ async fn run_inner(f: &mut Fixture, swap: bool, max_dials: u8, chooser: &mut Cho
             a.verif_insert_namespace(ns);
         }
     }
-    let res = run_world(f, ns, not_syncing, map, max_dials, chooser, lifecycle, o, &mut note).await;
+    let res = if std::env::var_os("DV_C11_SKIP").is_some() { Ok(()) } else { run_world(f, ns, not_syncing, map, max_dials, chooser, lifecycle, o, &mut note).await };
     if lifecycle {
         // leave everything and remove the documents again (the fixture's stores are reused by the next case)
         for a in f.actors.iter_mut() {
@@ -344,6 +373,13 @@ async fn run_inner(f: &mut Fixture, swap: bool, max_dials: u8, chooser: &mut Cho
                 while let Ok(false) = sync.close(d).await {}
                 let _ = sync.drop_replica(d).await;
             }
+        }
+    }
+    if !lifecycle {
+        // forget the case's namespace again (the fixture's actors live as long as the worker): `leave` removes the
+        // coordination state first and then fails on the store, which never knew the document
+        for a in f.actors.iter_mut() {
+            let _ = a.verif_leave(ns).await;
         }
     }
     res.map(|_| note)
